@@ -106,7 +106,7 @@ def known_findings(pid, ez):
             log("[ledger] open finding %s/%s is no longer observed on this tree" % (pid, f["key"]))
     return n
 
-def report_replay(pid, results, tier, t0, level="model_checking", extra_cov=None, assumptions=()):
+def report_replay(pid, results, tier, t0, level="model_checking", extra_cov=None, assumptions=(), trace=False):
     """results: list of (slice name, result of vlib.replay_slice). Prints verdict lines, writes evidence, returns exit code."""
     viol = {}     # key -> shortest case
     drift = {}
@@ -144,12 +144,51 @@ def report_replay(pid, results, tier, t0, level="model_checking", extra_cov=None
            "rule": "every transition of the bounded TLA+ instance is exported by TLC and replayed (path from Init + the call) on a fresh real "
                    "object; the full projected state, the outcome class and (for refused calls) state-before = state-after are compared"}
     if extra_cov: cov.update(extra_cov)
+    if trace and report_replay.ez:
+        tcov, tviol = trace_leg(pid, report_replay.ez, tier)
+        cov.update(tcov); nviol += tviol
+        cov["traces_validated_against_impl"] = cases + tcov["random_histories_accepted"]
     if "known_findings_observed" not in cov and report_replay.ez:
         cov["known_findings_observed"] = known_findings(pid, report_replay.ez)
-    vlib.write_evidence(pid, tier, level, cov, time.time() - t0, len(viol), assumptions)
+    vlib.write_evidence(pid, tier, level, cov, time.time() - t0, len(viol) + (nviol - min(len(viol), 12)), assumptions)
     log("[%s] %s: %d states, %d transitions, %d replayed on the implementation, %d violation keys, %d drift keys, %.0fs" %
         (pid, tier, states, transitions, cases, len(viol), len(drift), time.time() - t0))
     return 1 if nviol else 0
+
+# ------------------------------------------------------------------ direction A: random histories validated by EzTrace.tla
+def trace_leg(pid, ez, tier):
+    """Seeded random histories (sizes beyond the model bounds) recorded from the real library and validated line by line by TLC
+    against spec/EzTrace.tla. Returns (coverage dict, number of violations reported)."""
+    import randhist, concurrent.futures
+    work = vlib.scratch("trace")
+    nhist, steps = (8, 40) if tier == "quick" else (64, 80)
+    paths, nev = randhist.generate(ez, vlib.seed(), nhist, steps, os.path.join(work, "hist"))
+    def val(p):
+        return p, vlib.validate_trace("EzTrace.tla", "EzTrace.cfg", p, timeout=1500)
+    with concurrent.futures.ThreadPoolExecutor(max_workers=8) as ex:
+        res = list(ex.map(val, paths))
+    nviol = 0; accepted = 0
+    for p, (ok, at, summ, out) in res:
+        if ok: accepted += 1; continue
+        ok2, at2, _, out2 = vlib.validate_trace("EzTrace.tla", "EzTrace.cfg", p, timeout=1500)       # report only what repeats
+        if ok2: accepted += 1; continue
+        m = re.search(r'obs = (<<"line".*?)\n/\\', out2, re.S)
+        inv = [e for e in vlib.tlc_errors(out2) if "Invariant" in e or "property" in e.lower()]
+        desc = re.sub(r"\s+", " ", m.group(1))[:400] if m else ("no specification action matches line %s" % at2 if at2 else "; ".join(inv)[:300])
+        lines = open(p).read().splitlines()
+        k = None
+        mm = re.search(r'<<"line", (\d+)', desc)
+        if mm: k = int(mm.group(1))
+        elif at2: k = at2
+        evs = [json.loads(x) for x in lines[:k]] if k else [json.loads(x) for x in lines]
+        rp = vlib.save_replay(pid, "trace:" + desc[:80], {"property": pid, "kind": "trace", "events": [{"e": e["e"], "args": e["args"], "out": e["out"]} for e in evs], "rejection": desc})
+        log("VIOLATION property=%s replay=%s" % (pid, rp)); nviol += 1
+        log("  recorded history rejected by EzTrace.tla: %s; calls: %s" % (desc, [e["e"] for e in evs][-12:]))
+    cov = {"random_histories": nhist, "random_history_events": nev, "random_histories_accepted": accepted,
+           "random_history_rule": "seeded adaptive random histories (<= 6 points, 3 channels, 3 sub-frames, 8 frames, parameters with <= 7 dimensions, 200-character "
+                                  "descriptions, save/load generations, refused calls) recorded from the real library and validated line by line by TLC against EzTrace.tla "
+                                  "(spec action + recorded outcome + full projected state + invariants after every line)"}
+    return cov, nviol
 
 report_replay.ez = None
 SHAPE_ASSUME = ["rates are exact small integers (table in C3DBytes.tla), so integer arithmetic in TLC equals float arithmetic in the code",
@@ -163,15 +202,26 @@ def shape_consts(tier):
 def run_shape(pid, tier, t0):
     ez = report_replay.ez = vlib.build("plain")
     res = vlib.replay_slice("MC_Shape.tla", "MC_Shape.cfg", shape_consts(tier), ez, tag="shape", timeout=3000)
-    return report_replay(pid, [("MC_Shape", res)], tier, t0, assumptions=SHAPE_ASSUME)
+    results = [("MC_Shape", res)]
+    if pid == "C10":      # refused column adders over three frames with gaps (index up to count+2) come from the frame-centred slice
+        results.append(("MC_Frames", vlib.replay_slice("MC_Frames.tla", "MC_Frames.cfg", frames_consts("quick"), ez, tag="frames", timeout=6000)))
+    return report_replay(pid, results, tier, t0, assumptions=SHAPE_ASSUME, trace=True)
 
+def frames_configs(tier):
+    """(A) one caller frame object reused / mutated / re-submitted, two explicit payloads; (B) in-place edits of stored frames and column
+    adders over data sets with up to two empty frames created by one extension (index up to count+2), automatic payloads"""
+    if tier == "quick":
+        return [("MC_Frames/callers", {"NTags": 2, "NCallers": 1, "MaxFrames": 2, "IdxSlack": 2}),
+                ("MC_Frames/gaps", {"NTags": 0, "NCallers": 0, "MaxFrames": 3, "IdxSlack": 3})]
+    return [("MC_Frames/callers", {"NTags": 2, "NCallers": 1, "MaxFrames": 3, "IdxSlack": 2}),
+            ("MC_Frames/gaps", {"NTags": 0, "NCallers": 1, "MaxFrames": 3, "IdxSlack": 3})]
 def frames_consts(tier):
-    return {"NTags": 2, "NCallers": 1, "MaxFrames": 2 if tier == "quick" else 3, "IdxSlack": 2}
+    return frames_configs("quick")[1][1]
 
 def run_frames(pid, tier, t0):
-    ez = vlib.build("plain")
-    res = vlib.replay_slice("MC_Frames.tla", "MC_Frames.cfg", frames_consts(tier), ez, tag="frames", timeout=6000)
-    return report_replay(pid, [("MC_Frames", res)], tier, t0, assumptions=SHAPE_ASSUME)
+    ez = report_replay.ez = vlib.build("plain")
+    results = [(name, vlib.replay_slice("MC_Frames.tla", "MC_Frames.cfg", consts, ez, tag="frames", timeout=9000)) for name, consts in frames_configs(tier)]
+    return report_replay(pid, results, tier, t0, assumptions=SHAPE_ASSUME, trace=(pid == "C06"))
 
 def run_params(pid, tier, t0):
     ez = vlib.build("plain")
@@ -194,7 +244,13 @@ def io_consts(tier):
 def run_io(pid, tier, t0):
     ez = report_replay.ez = vlib.build("plain")
     res = vlib.replay_slice("MC_IO.tla", "MC_IO.cfg", io_consts(tier), ez, tag="io", timeout=6000)
-    return report_replay(pid, [("MC_IO", res)], tier, t0, assumptions=SHAPE_ASSUME + [
+    results = [("MC_IO", res)]
+    if pid in ("C01", "C03"):
+        # alignment sweep: every residue 0..511 of the parameter-section length modulo the block size
+        results.append(("MC_Align", vlib.replay_slice("MC_Align.tla", "MC_Align.cfg", {"KMax": 255, "FromLoaded": "FALSE"}, ez, tag="align", timeout=6000, workers=8)))
+        if tier != "quick":
+            results.append(("MC_Align/loaded", vlib.replay_slice("MC_Align.tla", "MC_Align.cfg", {"KMax": 255, "FromLoaded": "TRUE"}, ez, tag="align2", timeout=6000, workers=8)))
+    return report_replay(pid, results, tier, t0, assumptions=SHAPE_ASSUME + [
         "the specification's writer model is compared byte for byte with the bytes the real code writes; the model itself is shown self-consistent / round-tripping by TLC in every state"])
 
 # ------------------------------------------------------------------ C15: fault enumeration
@@ -243,7 +299,7 @@ def run_faults(pid, tier, t0):
     tpath = os.path.join(work, "faults.ndjson")
     open(tpath, "w").write("\n".join(json.dumps(e) for e in faults) + "\n")
     # design level: the fault model itself
-    rc, out = vlib.run_tlc("EzFault.tla", "EzFault.cfg", timeout=300)
+    rc, out = vlib.run_tlc("EzFault.tla", "EzFault.cfg", timeout=300, workers=1)
     msum = vlib.tlc_summary(out)
     if vlib.tlc_errors(out) or msum is None: raise Infra("EzFault model check failed: %s" % out[-1500:])
     accepted, at, summ, tout = vlib.validate_trace("EzFaultTrace.tla", "EzFaultTrace.cfg", tpath)
@@ -441,7 +497,7 @@ def run_limits(pid, tier, t0):
     cases = limit_cases(tier)
     for nb in (254, 255, 256):
         cases.append(([{"limit": "param_blocks", "v": nb}], params_blocks_case(ez, nb)))
-    rc, out = vlib.run_tlc("EzLimits.tla", "EzLimits.cfg", timeout=300)
+    rc, out = vlib.run_tlc("EzLimits.tla", "EzLimits.cfg", timeout=300, workers=1)
     msum = vlib.tlc_summary(out)
     if vlib.tlc_errors(out) or msum is None: raise Infra("EzLimits model check failed: %s" % out[-1500:])
     events = []
